@@ -16,3 +16,4 @@ import Boario.Properties.FormulasDistribute
 import Boario.Properties.FormulasOrders
 import Boario.Properties.FormulasCurves
 import Boario.Properties.FormulasLedger
+import Boario.Properties.FormulasUnits
